@@ -123,6 +123,14 @@ def discharge_texts(items, timeout_ms=20000, jobs=None, use_cvc5=True, cvc5_all=
             order.append(key)
 
     brief = set(brief)       # obligations listed as open findings: expected not to discharge, do not spend the budget on them
+    # budgets are CPU budgets in spirit: on a machine that is already busy (other checks, sweeps) the wall-clock limits are
+    # stretched by the load factor, so that a verdict does not flip because the query got a fraction of a core
+    try:
+        load = os.getloadavg()[0] / max(1, os.cpu_count() or 1)
+    except OSError:
+        load = 0.0
+    stretch = min(4.0, max(1.0, 1.0 + load))
+    timeout_ms = int(timeout_ms * stretch)
 
     def tmo(k):
         return 2000 if (uniq[k]["kind"] == "vacuity" or uniq[k]["oid"] in brief) else timeout_ms
